@@ -182,8 +182,9 @@ def dump_tree(e):
     return [e.tag, [[k, v] for k, v in e.attrib.items()], e.text, e.tail, [dump_tree(k) for k in e]]
 
 
-def run_entry(entry, doc):
-    """-> (kind, exc name, dumped tree | None)"""
+def run_entry(entry, doc, enc=None):
+    """-> (kind, exc name, dumped tree | None); enc: the document reaches the entry point as bytes in that encoding
+    through a binary handle (BOMs included) instead of as text"""
     import io
     import pathlib
     import xml.etree.ElementTree as ET
@@ -197,15 +198,16 @@ def run_entry(entry, doc):
     _STATE["events"], _STATE["calls"], _STATE["trees"] = [], [], []
     _STATE["on"] = True
     try:
+        handle = io.StringIO(doc) if enc is None else io.BytesIO(doc.encode(enc))
         if entry == "ovf":
             from dissect.hypervisor.descriptor.ovf import OVF
-            tree = OVF(io.StringIO(doc)).xml
+            tree = OVF(handle).xml
         elif entry == "vbox":
             from dissect.hypervisor.descriptor.vbox import VBox
-            tree = VBox(io.StringIO(doc))._xml
+            tree = VBox(handle)._xml
         elif entry == "pvs":
             from dissect.hypervisor.descriptor.pvs import PVS
-            tree = PVS(io.StringIO(doc))._xml
+            tree = PVS(handle)._xml
         else:
             from dissect.hypervisor.disk.hdd import Descriptor
             tree = Descriptor(p).xml
@@ -259,6 +261,15 @@ class HostileSuite(Suite):
             for lead in ("\n", "   ", "\x00\x00", "\ufeff\n", "\n\n\t"):
                 cases.append({"entry": entry, "kind": "malformed-leading-pad", "doc": lead + base})
                 cases.append({"entry": entry, "kind": "malformed-leading-pad-ext", "doc": lead + hostile(entry, "ext-general-file")})
+        # the same documents as bytes through a binary handle, with and without byte order marks
+        for entry in ("ovf", "vbox", "pvs"):
+            for enc in ("utf-8", "utf-8-sig", "utf-16"):
+                for kind, n in (("internal-nested", 3), ("ext-general-file", 1), ("ext-dtd-file", 1), ("benign", 1)):
+                    cases.append({"entry": entry, "kind": kind, "n": n, "enc": enc, "doc": hostile(entry, kind, n, 10)})
+        # the hardened parser is not optional: with defusedxml unimportable the entry points must not fall back to a
+        # parser that expands entities (a fresh interpreter per entry point)
+        for entry in ENTRY_MODULE:
+            cases.append({"entry": entry, "kind": "no-defusedxml", "doc": hostile(entry, "internal-nested", 3, 10)})
         # benign documents of the C18 generators must parse as before
         from harness.props import c18
         nb = 120 if tier == "thorough" else 12
@@ -279,7 +290,9 @@ class HostileSuite(Suite):
         import time
         _install()
         t0 = time.time()
-        kind, exc, tree = run_entry(case["entry"], case["doc"])
+        if case["kind"] == "no-defusedxml":
+            return self.impl_nodefused(case)
+        kind, exc, tree = run_entry(case["entry"], case["doc"], case.get("enc"))
         out = {"kind": kind, "exc": exc, "events": list(_STATE["events"]), "calls": list(_STATE["calls"]),
                "elapsed": round(time.time() - t0, 3), "leak": False, "expanded": False, "same_as_stdlib": None}
         if tree is not None:
@@ -289,12 +302,51 @@ class HostileSuite(Suite):
             if not declares_entity(case["doc"]):
                 import xml.etree.ElementTree as ET
                 try:
-                    out["same_as_stdlib"] = dump_tree(ET.fromstring(case["doc"])) == tree
+                    raw = case["doc"] if not case.get("enc") else case["doc"].encode(case["enc"])
+                    out["same_as_stdlib"] = dump_tree(ET.fromstring(raw)) == tree
                 except Exception as e:  # noqa: BLE001
                     out["same_as_stdlib"] = f"stdlib raised {type(e).__name__}"
         return out
 
+    def impl_nodefused(self, case):
+        import subprocess
+        import sys
+        script = (
+            "import sys, io, os, pathlib, tempfile\n"
+            "sys.modules['defusedxml'] = None\n"
+            "doc = sys.stdin.read()\n"
+            "entry = sys.argv[1]\n"
+            "try:\n"
+            "    if entry == 'ovf':\n"
+            "        from dissect.hypervisor.descriptor.ovf import OVF; t = OVF(io.StringIO(doc)).xml\n"
+            "    elif entry == 'vbox':\n"
+            "        from dissect.hypervisor.descriptor.vbox import VBox; t = VBox(io.StringIO(doc))._xml\n"
+            "    elif entry == 'pvs':\n"
+            "        from dissect.hypervisor.descriptor.pvs import PVS; t = PVS(io.StringIO(doc))._xml\n"
+            "    else:\n"
+            "        from dissect.hypervisor.disk.hdd import Descriptor\n"
+            "        d = tempfile.mkdtemp(); p = pathlib.Path(d) / 'DiskDescriptor.xml'; p.write_text(doc)\n"
+            "        t = Descriptor(p).xml\n"
+            "except ImportError as e:\n"
+            "    print('IMPORT-FAILED'); sys.exit(0)\n"
+            "except Exception as e:\n"
+            "    print('REFUSED', type(e).__name__); sys.exit(0)\n"
+            "import xml.etree.ElementTree as ET\n"
+            "flat = ET.tostring(t, encoding='unicode')\n"
+            "print('EXPANDED' if ('lol' in flat or 'AAAAAAAAAA' in flat) else 'PARSED')\n")
+        env = dict(os.environ, PYTHONPATH=core.REPO, PYTHONDONTWRITEBYTECODE="1")
+        try:
+            r = subprocess.run([sys.executable, "-c", script, case["entry"]], input=case["doc"], capture_output=True, text=True,
+                               timeout=60, env=env)
+            verdict = (r.stdout.strip().split("\n") or ["?"])[-1] if r.returncode == 0 else "CRASH " + r.stderr.strip()[-200:]
+        except subprocess.TimeoutExpired:
+            verdict = "TIMEOUT"
+        return {"kind": "nodefused", "verdict": verdict, "exc": None, "events": [], "calls": [], "leak": False,
+                "expanded": verdict.startswith("EXPANDED"), "same_as_stdlib": None}
+
     def coq_term(self, case):
+        if case["kind"] == "no-defusedxml":
+            return None
         decl = declares_entity(case["doc"])
         wf = well_formed(case["kind"])
         return f'predict "{ENTRY_MODULE[case["entry"]]}" {core.cbool(decl)} {core.cbool(wf)}'
@@ -305,6 +357,12 @@ class HostileSuite(Suite):
         if impl_res.get("outcome"):
             return [Finding("impl_fault", f"{entry} entry point {impl_res['outcome']} on a {kind} document "
                             f"({impl_res.get('detail', '')})", sig + ":" + impl_res["outcome"])]
+        if kind == "no-defusedxml":
+            v = impl_res["verdict"]
+            if v.startswith("IMPORT-FAILED") or v.startswith("REFUSED"):
+                return []
+            return [Finding("impl_vs_spec", f"{entry}: with defusedxml unimportable an entity-declaring document is {v} "
+                            "(required: the import fails or the document is refused)", sig + ":fallback")]
         fs = []
         decl = declares_entity(case["doc"])
         wf = well_formed(kind)
